@@ -19,6 +19,9 @@ class _P:
         self.calls += 1
         return object() if self.verdict else None
 
+    # which regex method the wrapper uses is decided by the encoder (E1, spy objects); the evaluation law holds for any of them
+    match = search = fullmatch
+
 
 def law(i1: bool, i2: bool, i3: bool, e1: bool, e2: bool, e3: bool, ni: int, ne: int, empty: bool, exclude_none: bool) -> bool:
     """
@@ -73,6 +76,8 @@ class _PR:
     def fullmatch(self, s):
         v = self.with_sep if s.endswith('/') else self.without_sep
         return _M() if v else None
+
+    match = search = fullmatch
 
     def verdict(self, shown):
         return self.with_sep if shown.endswith('/') else self.without_sep
